@@ -16,6 +16,8 @@ EXTRA_TARGETS = ["MG.DriverEng"]
 THEOREMS = {
     "MG.Proofs.C10": [
         "MG.C10.op_constant_rule",
+        "MG.C10.opStep_result_flag",
+        "MG.C10.wrapped_literals_are_constant",
         "MG.C10.constants_never_get_grad",
         "MG.C10.grads_only_on_reached_tensors",
         "MG.C10.backward_on_constant_only_clears",
